@@ -331,6 +331,19 @@ Example C11_other_stores_example :
   length (flat_map c_kvlog (snd (c_run true st0 ops))) = 12%nat.
 Proof. vm_compute. repeat split. Qed.
 
+(** the local index of a new fabric (Fabrics::add_with_post_init): highest index in use + 1 while
+    that is below 254, then the first unused one of 1..254; 255 is never handed out - and a fabric
+    committed under ANY index comes back after a restart (start-up probes all of 1..255) *)
+Example C11_index_allocation :
+  let f := init_fabric 1 in
+  new_index [(1, f); (5, f)] = Some 6 /\ new_index [(253, f)] = Some 254 /\
+  new_index [(1, f); (254, f)] = Some 2 /\ new_index [(2, f); (254, f)] = Some 1 /\
+  let st0 := init_state_at [253] true in
+  let ops := [OArm SP; OAddNoc 77; OComplete 254; OPase; OArm SP; OAddNoc 78; OComplete 1; OAcl (SC 254) 5; OCrash] in
+  let st := fst (c_run true st0 ops) in
+  map fst (r_fabs (s_ram st)) = [1; 253; 254] /\ fab_acl (Some (s_ram st)) 254 = Some 5.
+Proof. vm_compute. repeat split. Qed.
+
 (** a commissioning committed, a label write, a restart: durable; the invariant's hypotheses are met *)
 Example C11_history_example :
   let st0 := init_state 1 true in
